@@ -21,7 +21,7 @@ NUMDOM = [None, -2, 0, 1, 3]
 STRDOM = [None, 1, 2, 3]
 STATS = ['count', 'total', 'min', 'max', 'mean', 'variance-n', 'variance', 'standard-deviation-n',
          'standard-deviation', 'median']
-def src_for(rot):
+def src_for(rot, numeric=True):
     """the statistics are computed together and cached on the first one asked for: every statistic is the first one in one
     of the ten rotations of the template"""
     order = STATS[rot % len(STATS):] + STATS[:rot % len(STATS)]
@@ -31,6 +31,11 @@ def src_for(rot):
         # a lazily produced sequence shown in batches of one, and another variable (z, a copy of x) summarised first: every
         # summary is computed over the whole sequence, whatever was displayed or summarised before
         return ('<dtml-in seq%s size=1 orphan=0><dtml-if sequence-end>cz=<dtml-var count-z>/<dtml-var total-z missing=->|' +
+                '|'.join('%s=<dtml-var %s-x>' % (s, s) for s in order) + '</dtml-if></dtml-in>')
+    if rot % 4 == 1:
+        # the sequence is shown in an order of its own (a comparison function from the namespace / case-insensitive): the
+        # summaries are about the values, not about the order they are displayed in
+        return ('<dtml-in seq%s sort="x/' + ('cf' if (numeric or rot % 8 == 1) else 'nocase') + '"><dtml-if sequence-end>' +
                 '|'.join('%s=<dtml-var %s-x>' % (s, s) for s in order) + '</dtml-if></dtml-in>')
     return ('<dtml-in seq%s><dtml-if sequence-end>' + '|'.join('%s=<dtml-var %s-x>' % (s, s) for s in order) +
             '</dtml-if></dtml-in>')
@@ -73,14 +78,24 @@ class O:
 _t = {}
 
 
-def render(seq, mapping, rot=0):
+def odd_order(a, b):
+    """a comparison function unrelated to the natural order: by distance from 1, placeholders of missing keys first"""
+    def k(v):
+        if isinstance(v, bool) or not isinstance(v, (int, float, fractions.Fraction)):
+            return (0, 0)
+        return (1, abs(v - 1), v)
+    ka, kb = k(a), k(b)
+    return (ka > kb) - (ka < kb)
+
+
+def render(seq, mapping, rot=0, numeric=True):
     from DocumentTemplate.DT_HTML import HTML
-    key = (mapping, rot % 60)
+    key = (mapping, rot % 120, numeric)
     if key not in _t:
-        _t[key] = HTML(src_for(rot) % (' mapping' if mapping else ''))
+        _t[key] = HTML(src_for(rot, numeric) % (' mapping' if mapping else ''))
     if rot % 3 == 2:
         seq = (e for e in seq)          # a generator: nothing can be read twice behind the tag's back
-    return _t[key](seq=seq)
+    return _t[key](seq=seq, cf=odd_order)
 
 
 def observe(item):
@@ -120,7 +135,7 @@ def observe(item):
                     seq.append(o)
             rec = {'ok': 1, 'real': rname, 'mapping': mapping}
             try:
-                out = render(seq, mapping, rot=i * 7 + ri * 3 + int(mapping))
+                out = render(seq, mapping, rot=i * 7 + ri * 3 + int(mapping), numeric=numeric)
                 rec['raw'] = out
                 f = dict(p.split('=', 1) for p in out.split('|'))
                 rec.update(normalise(f, u, off, numeric))
